@@ -113,6 +113,8 @@ def scenarios(ctx):
     out.append(Std('pub-reenter-errback', profile='pub', init=(('connect', 0, False, 0, 4), ('connack', 0, 0, False), ('setwin', 0, 2)),
                    connects=[(False, 0, 4)], reconnects=[(True, 0, 4)], reenter=('err:pub>pub',), pub_qos=(1, 2), windows=(2,),
                    budgets=dict(pub=2, ack=2, lose=1, rebuild=1, connect=1, connack=1, tick=1, setwin=1)))
+    out.append(Std('pub-callback-returns-deferred', profile='pub', init=CONNECTED + (('setwin', 0, 2),), pub_qos=(1, 2), cb_deferred=True,
+                   budgets=dict(pub=3, ack=3, dack=1, tick=1)))
     # several re-entrant calls per history: each acknowledged publish publishes again; each failed one is re-issued
     out.append(Std('pub-reenter-chain', profile='pub', init=CONNECTED + (('setwin', 0, 2),), pub_qos=(1, 2), reenter=('pub',),
                    reenter_max=3, budgets=dict(pub=2, ack=5 if q else 6, tick=1)))
